@@ -1163,6 +1163,88 @@ def _is_params_map(e, aliases=()):
     return (isinstance(e, ast.Subscript) and isinstance(e.slice, ast.Constant) and e.slice.value == "params") or (isinstance(e, ast.Name) and e.id in aliases)
 
 
+# ---------------------------------------------------------------------------- PARAM-KEPT
+def _const_key_removals(own):
+    """(node, key) for every `E.pop("k")` / `del E["k"]` among the nodes `own` where E is a parameter mapping: `X["params"]`,
+    `X.get("params")`, a name assigned from one, or a name that says so (`params`, `target_params`)"""
+    def is_params(e, depth=0):
+        if isinstance(e, ast.Subscript) and isinstance(e.slice, ast.Constant) and e.slice.value == "params":
+            return True
+        if isinstance(e, ast.Call) and isinstance(e.func, ast.Attribute) and e.func.attr in ("get", "setdefault") and e.args \
+                and isinstance(e.args[0], ast.Constant) and e.args[0].value == "params":
+            return True
+        if isinstance(e, ast.BoolOp):
+            return any(is_params(v, depth) for v in e.values)
+        if isinstance(e, ast.Name) and depth < 3:
+            if e.id == "params" or e.id.endswith("_params"):
+                return True
+            return any(isinstance(st, ast.Assign) and any(isinstance(t, ast.Name) and t.id == e.id for t in st.targets) and is_params(st.value, depth + 1)
+                       for st in own)
+        return False
+    out = []
+    for x in own:
+        key, holder = None, None
+        if isinstance(x, ast.Call) and isinstance(x.func, ast.Attribute) and x.func.attr == "pop" and x.args and isinstance(x.args[0], ast.Constant) \
+                and isinstance(x.args[0].value, str):
+            key, holder = x.args[0].value, x.func.value
+        elif isinstance(x, ast.Delete):
+            for t in x.targets:
+                if isinstance(t, ast.Subscript) and isinstance(t.slice, ast.Constant) and isinstance(t.slice.value, str):
+                    key, holder = t.slice.value, t.value
+        if key is not None and is_params(holder):
+            out.append((x, key))
+    return out
+
+
+_PARAM_KEPT_EXAMPLE = """
+def reader(ir, other):
+    mapping = ir["params"]
+    mapping.pop("a")
+    del other.get("params")["b"]
+    ir["params"].pop(name)
+    ir["returns"].pop("c")
+"""
+
+
+def rule_param_kept(prog, rep, tier, roots=("parse.function", "parse.class_"), convention=("parse.class_",)):
+    """PARAM-KEPT (C07, C03): no reader removes a parameter from the interface because of its *name*.  A parameter may be called
+    anything; an entry taken out of a `params` mapping under a constant key (`params.pop("return_type")`, `del params["x"]`)
+    drops that parameter for every function that has one.  Accepted: the class reader (and what only it uses), where
+    `return_type` is the documented spelling of what a config class returns (C02).  The matcher is run over a built-in example
+    on every run (two removals to find, two look-alikes to leave), since the expected count on the function path is zero."""
+    ex = [k for _x, k in _const_key_removals(list(ast.walk(ast.parse(_PARAM_KEPT_EXAMPLE))))]
+    if sorted(ex) != ["a", "b"]:
+        raise AnalysisError("PARAM-KEPT: the matcher finds %r in its built-in example instead of ['a', 'b']" % (ex,))
+    scope = prog.reachable([prog.fn(r) for r in roots])
+    # what serves the function reader without passing through the class reader: a helper the class reader alone uses shares its convention
+    conv = [prog.fn(c) for c in convention]
+    seen_, todo = set(), [prog.fn(r) for r in roots if r not in convention]
+    while todo:
+        f = todo.pop()
+        if id(f) in seen_ or any(f is c for c in conv):
+            continue
+        seen_.add(id(f))
+        todo.extend(prog.references(f))
+    n = 0
+    for fi in scope:
+        node = getattr(fi, "node", None)
+        if node is None:
+            continue
+        own = [x for x in ast.walk(node) if enclosing_fn(x) is fi or x is node]
+        for x, key in _const_key_removals(own):
+            n += 1
+            inst = "%s: %s" % (prog.owner_name(fi), src(x, 60))
+            if id(fi) not in seen_:
+                rep.holds("PARAM-KEPT", inst, loc(prog, x), "the class reader's own convention (%r is how a config class spells what it returns)" % key)
+            else:
+                rep.violation(Finding(
+                    "PARAM-KEPT", prog.owner_name(fi), "parameter-removed-by-name:%s" % key,
+                    "%s takes the entry %r out of a parameter mapping wherever it occurs: a function or method whose signature has a parameter of that name "
+                    "loses it from the parsed interface (Python itself lists it)" % (src(x, 60), key), loc(prog, x)))
+    rep.holds("PARAM-KEPT", "function reader path: %d function(s) scanned" % len(seen_), loc(prog, prog.fn(roots[0]).node),
+              "no entry is taken out of a parameter mapping under a constant key (%d removal(s) seen, all in the class reader)" % n)
+
+
 # ---------------------------------------------------------------------------- ORDER-merge
 def rule_order_merge(prog, rep, tier, anchor="parser_utils.ir_merge"):
     """ORDER-merge (C07, C03, C08): the signature-only parameters are appended to the parameter mapping in the order the
